@@ -509,3 +509,138 @@ def self_field_meaning(p, cls, field, sn="self"):
     if not vals or len({unparse(v) for v, _ in vals}) != 1:
         return None
     return foreign(vals[0][0], vals[0][1]), vals[0][1]
+
+
+_STACK_MAKERS = {"ExitStack", "AsyncExitStack"}
+
+
+def exit_stacks(fn_node) -> dict:
+    """name -> [With statements] for the exit stacks of a function: `with ExitStack() as <name>:`, or `<name> = ExitStack()`
+    followed by `with <name>:`.  Callbacks registered on <name> run at the exit of those with-blocks."""
+    made = {t.id for a in ast.walk(fn_node) if isinstance(a, ast.Assign) and isinstance(a.value, ast.Call) and call_name(a.value) in _STACK_MAKERS
+            for t in a.targets if isinstance(t, ast.Name)}
+    out: dict = {}
+    for w in ast.walk(fn_node):
+        if isinstance(w, (ast.With, ast.AsyncWith)):
+            for it in w.items:
+                if isinstance(it.context_expr, ast.Call) and call_name(it.context_expr) in _STACK_MAKERS and isinstance(it.optional_vars, ast.Name):
+                    out.setdefault(it.optional_vars.id, []).append(w)
+                elif isinstance(it.context_expr, ast.Name) and it.context_expr.id in made:
+                    out.setdefault(it.context_expr.id, []).append(w)
+    return out
+
+
+class ReleaseModel:
+    """Is the handle opened at one acquisition released on every way out of the function?  Explores (CFG node, held?,
+    exit stacks the release is registered on): the handle is released by `<h>.close()`, by the exit of `with <h>` /
+    `with closing(<h>)` / a generator context manager of the package over it, by whatever `extra(node)` says, and by the
+    exit of `with ExitStack() as s:` (or `s.close()`) on the paths where `s.callback(<h>.close)` / `s.enter_context(<h>)` /
+    `s.push(<h>)` was executed before and not cancelled by `s.pop_all()`.
+    A registration that names the RECEIVER of `<ws>.open(..)` counts wherever it is executed (it is the same object before and
+    after); one that names the local the handle is bound to counts only after the acquisition (before it, the name stands
+    for another object)."""
+
+    def __init__(self, g, fn_node, acq_node, recv_handles, tgt_handles, released_by=None, extra=None):
+        self.g, self.acq = g, acq_node
+        self.all = closer(fn_node, set(recv_handles) | set(tgt_handles), released_by)
+        self.recv = closer(fn_node, set(recv_handles), released_by) if recv_handles else None
+        self.extra = extra or (lambda n: False)
+        self.stacks = exit_stacks(fn_node)
+        self._with_of = {id(w): name for name, ws in self.stacks.items() for w in ws}
+        self.acq_yields = acq_node is not None and any(isinstance(x, (ast.Yield, ast.YieldFrom)) for e in node_exprs(acq_node) for x in ast.walk(e))
+        self._full = None
+
+    # ---------------------------------------------------------------- per-node facts
+    def _stack_call(self, c):
+        f = c.func
+        if isinstance(f, ast.Attribute) and isinstance(f.value, ast.Name) and f.value.id in self.stacks:
+            return f.value.id, f.attr
+        return None, None
+
+    def _registers(self, n, held) -> set:
+        out = set()
+        for c in node_calls(n):
+            name, attr = self._stack_call(c)
+            if name is None or not c.args:
+                continue
+            a0 = c.args[0]
+            if attr == "callback":
+                obj = a0.value if isinstance(a0, ast.Attribute) and a0.attr in ("close", "__exit__") else None
+                if obj is not None and ((self.recv is not None and self.recv.denotes(obj)) or (held and self.all.denotes(obj))):
+                    out.add(name)
+            elif attr in ("enter_context", "push", "enter_async_context", "push_async_exit"):
+                if (self.recv is not None and self.recv.releases_item(a0)) or (held and self.all.releases_item(a0)):
+                    out.add(name)
+        return out
+
+    def _cancels(self, n) -> set:
+        return {name for c in node_calls(n) for name, attr in [self._stack_call(c)] if name is not None and attr == "pop_all"}
+
+    def _runs_now(self, n) -> set:
+        return {name for c in node_calls(n) for name, attr in [self._stack_call(c)] if name is not None and attr in ("close", "aclose") and not c.args}
+
+    def _stack_exit(self, n):
+        if n.kind == "withexit" and n.stmt is not None:
+            return self._with_of.get(id(n.stmt))
+        return None
+
+    def releases(self, n, regs) -> bool:
+        if self.all(n) or self.extra(n):
+            return True
+        se = self._stack_exit(n)
+        if se is not None and se in regs:
+            return True
+        return bool(self._runs_now(n) & regs)
+
+    # ---------------------------------------------------------------- exploration
+    def explore(self, starts):
+        """visited (node, held, regs) from starts = [(node, held, regs)] (state on ENTERING the node)"""
+        seen = set()
+        dq = deque(starts)
+        while dq:
+            n, held, regs = dq.popleft()
+            if held and self.releases(n, regs):
+                held = False
+            key = (n, held, regs)
+            if key in seen:
+                continue
+            seen.add(key)
+            if n is self.g.exit or n is self.g.rexit:
+                continue
+            held_after = held or (n is self.acq)
+            regs_after = (regs | frozenset(self._registers(n, held_after))) - frozenset(self._cancels(n))
+            se = self._stack_exit(n)
+            if se is not None:
+                regs_after = regs_after - {se}
+            for m, lab in n.succ:
+                if lab == "exc":
+                    # the statement did not complete: nothing it registers counts, and an acquisition that raised acquired
+                    # nothing (unless the node hands control out at a yield after acquiring)
+                    h2 = held_after if (n is not self.acq or self.acq_yields) else held
+                    dq.append((m, h2, regs))
+                else:
+                    dq.append((m, held_after, regs_after))
+        return seen
+
+    def full(self):
+        if self._full is None:
+            self._full = self.explore([(self.g.entry, False, frozenset())])
+        return self._full
+
+    def leaks(self):
+        """(normal exit reached while held, exceptional exit reached while held)"""
+        seen = self.full()
+        return any(n is self.g.exit and h for n, h, _ in seen), any(n is self.g.rexit and h for n, h, _ in seen)
+
+    def held_at(self, node) -> bool:
+        return node is self.acq or any(n is node and h for n, h, _ in self.full())
+
+    def protected(self, node) -> bool:
+        """exceptions raised at `node` are intercepted and every way out of it, normal or exceptional, passes a release"""
+        if not any(l == "exc" for _, l in node.succ):
+            return False
+        starts = [(n, h, r) for n, h, r in self.full() if n is node and (h or node is self.acq)]
+        if not starts:
+            return True
+        seen = self.explore(starts)
+        return not any((n is self.g.exit or n is self.g.rexit) and h for n, h, _ in seen)
